@@ -343,5 +343,17 @@ pub fn run(ctx: &mut Ctx) {
             }
         }
     }
-    ctx.exhaustive_domains.push(format!("{} loopback connections: {{blocking, tokio}} x {{tcp, udp without / with local address}} x both modes x 3 option sets", n));
+    // the size mode is whatever the last mode setter said (compressed when none was called) — wherever that call stands
+    // relative to the protocol choice, and whatever other protocol was chosen first
+    let mut n2 = 0;
+    for asynchronous in [false, true] {
+        let mut seqs: Vec<Vec<Op>> = vec![
+            vec![Op::Relay, Op::Tcp], vec![Op::Relay, Op::Udp(Some(1))], vec![Op::Mode(true), Op::Relay, Op::Tcp], vec![Op::Mode(false), Op::Relay, Op::Tcp],
+            vec![Op::Mode(false), Op::Tcp], vec![Op::Mode(false), Op::Udp(Some(1))], vec![Op::Udp(Some(1)), Op::Tcp], vec![Op::Tcp, Op::Udp(Some(1))],
+            vec![Op::Mode(false), Op::Mode(true), Op::Tcp], vec![Op::Tcp, Op::Relay, Op::Mode(false), Op::Tcp],
+        ];
+        for k in 0..6u8 { seqs.push(vec![Op::Other(k), Op::Tcp]); seqs.push(vec![Op::Mode(false), Op::Other(k), Op::Tcp]); }
+        for ops in seqs { do_connect(ctx, &ops, asynchronous); n2 += 1; }
+    }
+    ctx.exhaustive_domains.push(format!("{} loopback connections: {{blocking, tokio}} x {{tcp, udp without / with local address}} x both modes x 3 option sets; {} more where the mode setter is absent or precedes the protocol choice, another protocol was chosen first, or one of the six other setters was called", n, n2));
 }
